@@ -3,6 +3,12 @@ import Mathlib.LinearAlgebra.LinearIndependent.Basic
 import Mathlib.LinearAlgebra.LinearIndependent.Lemmas
 import Mathlib.Algebra.BigOperators.Fin
 import Mathlib.LinearAlgebra.Pi
+import Mathlib.LinearAlgebra.Span.Basic
+import Mathlib.Algebra.Module.Submodule.Bilinear
+import Mathlib.LinearAlgebra.Dimension.Constructions
+import Mathlib.LinearAlgebra.StdBasis
+import Mathlib.LinearAlgebra.FiniteDimensional.Lemmas
+import Mathlib.LinearAlgebra.Matrix.Determinant.Basic
 /-! Tensor-rank lemma for C03 (Mathlib, single modules): on a fully crossed design, products of per-axis
 linearly independent families of functions are linearly independent; hence the columns of distinct structural
 components are jointly linearly independent. -/
@@ -148,5 +154,413 @@ theorem linearIndependent_compColumn {n : ℕ} {J L : Fin n → Type} (R : (i : 
 /-- columns with different structural components are different members of that family -/
 theorem ne_of_component_ne {n : ℕ} {J : Fin n → Type} {k k' : (i : Fin n) → Option (J i)}
     (h : component k ≠ component k') : k ≠ k' := fun e => h (e ▸ rfl)
+
+/-! ### the span of a product family depends only on the per-axis spans -/
+
+/-- `(u, v) ↦ (fun (x, y) => u x * v y)` as a bilinear map -/
+def mulBil (X Y : Type) : (X → K) →ₗ[K] (Y → K) →ₗ[K] (X × Y → K) :=
+  LinearMap.mk₂ K (fun u v q => u q.1 * v q.2)
+    (by intro u u' v; funext q; simp [add_mul])
+    (by intro c u v; funext q; simp [mul_assoc])
+    (by intro u v v'; funext q; simp [mul_add])
+    (by intro c u v; funext q; simp [mul_left_comm])
+
+@[simp] theorem mulBil_apply {X Y : Type} (u : X → K) (v : Y → K) (q : X × Y) :
+    mulBil X Y u v q = u q.1 * v q.2 := rfl
+
+/-- rows ↦ (first coordinate, remaining coordinates) -/
+def splitRow {n : ℕ} (L : Fin (n + 1) → Type) (row : (i : Fin (n + 1)) → L i) :
+    L 0 × ((i : Fin n) → L i.succ) := (row 0, fun i => row i.succ)
+
+theorem prodFamily_succ {n : ℕ} {J L : Fin (n + 1) → Type} (B : (i : Fin (n + 1)) → J i → (L i → K))
+    (k : (i : Fin (n + 1)) → J i) :
+    prodFamily B k = LinearMap.funLeft K K (splitRow L)
+      (mulBil _ _ (B 0 (k 0)) (prodFamily (fun i : Fin n => B i.succ) (fun i => k i.succ))) := by
+  funext row
+  simp only [prodFamily, LinearMap.funLeft_apply, mulBil_apply, splitRow]
+  rw [Fin.prod_univ_succ]
+
+theorem range_prodFamily_succ {n : ℕ} {J L : Fin (n + 1) → Type} (B : (i : Fin (n + 1)) → J i → (L i → K)) :
+    Set.range (prodFamily B) = (LinearMap.funLeft K K (splitRow L)) ''
+      (Set.image2 (fun u v => mulBil _ _ u v) (Set.range (B 0))
+        (Set.range (prodFamily (fun i : Fin n => B i.succ)))) := by
+  ext w
+  constructor
+  · rintro ⟨k, rfl⟩
+    exact ⟨_, ⟨_, ⟨k 0, rfl⟩, _, ⟨fun i => k i.succ, rfl⟩, rfl⟩, (prodFamily_succ B k).symm⟩
+  · rintro ⟨_, ⟨_, ⟨a, rfl⟩, _, ⟨b, rfl⟩, rfl⟩, rfl⟩
+    refine ⟨Fin.cons a b, ?_⟩
+    rw [prodFamily_succ]
+    simp
+
+theorem span_prodFamily_succ {n : ℕ} {J L : Fin (n + 1) → Type} (B : (i : Fin (n + 1)) → J i → (L i → K)) :
+    Submodule.span K (Set.range (prodFamily B)) =
+      (Submodule.map₂ (mulBil _ _) (Submodule.span K (Set.range (B 0)))
+        (Submodule.span K (Set.range (prodFamily (fun i : Fin n => B i.succ))))).map
+          (LinearMap.funLeft K K (splitRow L)) := by
+  rw [range_prodFamily_succ, Submodule.map₂_span_span, Submodule.map_span]
+
+/-- (bilinearity of the product of column spaces on a crossed design) if on every axis two families
+span the same space, their product families span the same space -/
+theorem span_prodFamily_congr : ∀ (n : ℕ) (L : Fin n → Type) (J J' : Fin n → Type)
+    (A : (i : Fin n) → J i → (L i → K)) (B : (i : Fin n) → J' i → (L i → K))
+    (_ : ∀ i, Submodule.span K (Set.range (A i)) = Submodule.span K (Set.range (B i))),
+    Submodule.span K (Set.range (prodFamily A)) = Submodule.span K (Set.range (prodFamily B)) := by
+  intro n
+  induction n with
+  | zero =>
+    intro L J J' A B _
+    have hA : Set.range (prodFamily A) = {fun _ => 1} := by
+      ext w; constructor
+      · rintro ⟨k, rfl⟩; funext row; simp [prodFamily]
+      · rintro rfl; exact ⟨fun i => i.elim0, by funext row; simp [prodFamily]⟩
+    have hB : Set.range (prodFamily B) = {fun _ => 1} := by
+      ext w; constructor
+      · rintro ⟨k, rfl⟩; funext row; simp [prodFamily]
+      · rintro rfl; exact ⟨fun i => i.elim0, by funext row; simp [prodFamily]⟩
+    rw [hA, hB]
+  | succ n ih =>
+    intro L J J' A B h
+    rw [span_prodFamily_succ, span_prodFamily_succ, h 0,
+      ih (fun i => L i.succ) (fun i => J i.succ) (fun i => J' i.succ) (fun i => A i.succ) (fun i => B i.succ)
+        (fun i => h i.succ)]
+
+
+/-! ### (1) one factor: full coding versus `[1 | reduced coding]` -/
+
+theorem range_aug {J L : Type} (R : J → (L → K)) :
+    Set.range (aug R) = insert (fun _ => (1 : K)) (Set.range R) := by
+  ext w
+  constructor
+  · rintro ⟨o, rfl⟩
+    cases o with
+    | none => exact Set.mem_insert _ _
+    | some j => exact Set.mem_insert_of_mem _ ⟨j, rfl⟩
+  · rintro (rfl | ⟨j, rfl⟩)
+    · exact ⟨none, rfl⟩
+    · exact ⟨some j, rfl⟩
+
+theorem span_aug {J L : Type} (R : J → (L → K)) :
+    Submodule.span K (Set.range (aug R)) =
+      Submodule.span K {fun _ => (1 : K)} ⊔ Submodule.span K (Set.range R) := by
+  rw [range_aug, Submodule.span_insert]
+
+/-- the dummy (one indicator per level) coding spans all functions of the level -/
+theorem span_indicators {L : Type} [Fintype L] [DecidableEq L] :
+    Submodule.span K (Set.range (fun l : L => (Pi.single l (1 : K) : L → K))) = ⊤ := by
+  have := (Pi.basisFun K L).span_eq
+  have e : (⇑(Pi.basisFun K L) : L → (L → K)) = fun l => Pi.single l 1 := by
+    funext l; simp [Pi.basisFun_apply]
+  rw [e] at this
+  exact this
+
+/-- `[1 | R]` with linearly independent columns and as many columns as levels is a basis -/
+theorem span_aug_eq_top {J L : Type} [Fintype J] [Fintype L] (R : J → (L → K))
+    (hli : LinearIndependent K (aug R)) (hcard : Fintype.card J + 1 = Fintype.card L) :
+    Submodule.span K (Set.range (aug R)) = ⊤ := by
+  apply hli.span_eq_top_of_card_eq_finrank'
+  rw [Module.finrank_fintype_fun_eq_card, Fintype.card_option, hcard]
+
+/-- (1) For ONE factor with levels `L`: if the reduced coding `R` has one column fewer than there are
+levels and `[1 | R]` has linearly independent columns (equivalently: the square matrix `[1 | R]` is
+invertible — what C11 proves for every built-in contrast), then the full (dummy) coding spans
+exactly the constant column plus the reduced columns: `span F = span 1 ⊔ span R`. For the treatment
+coding `R` consists of the indicators of all levels but the reference one. -/
+theorem span_full_eq_one_sup_reduced {J L : Type} [Fintype J] [Fintype L] [DecidableEq L] (R : J → (L → K))
+    (hli : LinearIndependent K (aug R)) (hcard : Fintype.card J + 1 = Fintype.card L) :
+    Submodule.span K (Set.range (fun l : L => (Pi.single l (1 : K) : L → K))) =
+      Submodule.span K {fun _ => (1 : K)} ⊔ Submodule.span K (Set.range R) := by
+  rw [span_indicators, ← span_aug, span_aug_eq_top R hli hcard]
+
+/-- the hypothesis in matrix form: if the square matrix `[1 | R]` (columns indexed through any
+bijection with the levels) has non-zero determinant, its columns are linearly independent -/
+theorem aug_linearIndependent_of_det_ne_zero {J L : Type} [Fintype L] [DecidableEq L] (R : J → (L → K))
+    (e : Option J ≃ L) (hdet : (Matrix.of (fun l l' => aug R (e.symm l') l) : Matrix L L K).det ≠ 0) :
+    LinearIndependent K (aug R) := by
+  have := Matrix.linearIndependent_cols_of_det_ne_zero hdet
+  have h2 : (Matrix.of (fun l l' => aug R (e.symm l') l) : Matrix L L K).col = aug R ∘ ⇑e.symm := by
+    funext l' l; rfl
+  rw [h2] at this
+  exact (linearIndependent_equiv e.symm).mp this
+
+
+/-! ### abstract scoped terms on a fully crossed design -/
+
+/-- an indexed family of vectors bundled with its index type -/
+structure Fam (V : Type) where
+  J : Type
+  v : J → V
+
+section design
+variable {n : ℕ} {L JR JF : Fin n → Type}
+  (R : (i : Fin n) → JR i → (L i → K))   -- reduced coding of factor `i`
+  (F : (i : Fin n) → JF i → (L i → K))   -- full coding of factor `i`
+  (spans : Fin n → Bool)                  -- does factor `i` span the intercept
+
+/-- an abstract scoped term: for every factor `none` (absent), `some true` (reduced coding) or
+`some false` (full coding) — exactly the `(factor, reduced)` flags of a `ScopedTerm` -/
+abbrev Code (n : ℕ) := Fin n → Option Bool
+
+/-- the block of columns factor `i` contributes under a coding flag -/
+def blk (i : Fin n) : Option Bool → Fam (L i → K)
+  | none => ⟨Unit, fun _ _ => 1⟩
+  | some true => ⟨JR i, R i⟩
+  | some false => ⟨JF i, F i⟩
+
+/-- the columns of a scoped term on the fully crossed design: the row-wise Kronecker (Khatri–Rao)
+product of its factor blocks -/
+def stFamily (code : Code n) : ((i : Fin n) → (blk R F i (code i)).J) → (((i : Fin n) → L i) → K) :=
+  prodFamily (fun i => (blk R F i (code i)).v)
+
+/-- which entries of `[1 | R i]` a coding flag can reach: nothing but the constant for an absent factor,
+the reduced columns for a mandatory one, everything for a full-coded intercept-spanning one -/
+def allowed {J : Type} (sp : Bool) : Option Bool → Set (Option J)
+  | none => {none}
+  | some true => {o | o.isSome}
+  | some false => if sp then Set.univ else {o | o.isSome}
+
+/-- the component/column choices a scoped term covers -/
+def keys (code : Code n) : Set ((i : Fin n) → Option (JR i)) :=
+  {k | ∀ i, k i ∈ allowed (spans i) (code i)}
+
+/-- the sub-family of `[1 | R i]` reached by a coding flag -/
+def gblk (i : Fin n) (c : Option Bool) : Fam (L i → K) :=
+  ⟨{o : Option (JR i) // o ∈ allowed (spans i) c}, fun o => aug (R i) o.1⟩
+
+structure Hyp : Prop where
+  /-- `[1 | reduced columns]` is linearly independent on the factor's own axis -/
+  hR : ∀ i, LinearIndependent K (aug (R i))
+  /-- the full coding has linearly independent columns -/
+  hF : ∀ i, LinearIndependent K (F i)
+  /-- an intercept-spanning factor: full coding and `[1 | reduced coding]` span the same space -/
+  hFs : ∀ i, spans i = true →
+    Submodule.span K (Set.range (F i)) = Submodule.span K (Set.range (aug (R i)))
+  /-- any other factor (numeric): its coding is the same whether flagged reduced or not -/
+  hFn : ∀ i, spans i = false →
+    Submodule.span K (Set.range (F i)) = Submodule.span K (Set.range (R i))
+
+theorem image_isSome {J V : Type} (f : Option J → V) :
+    f '' {o : Option J | o.isSome} = Set.range (fun j => f (some j)) := by
+  ext w
+  constructor
+  · rintro ⟨o, ho, rfl⟩
+    cases o with
+    | none => simp at ho
+    | some j => exact ⟨j, rfl⟩
+  · rintro ⟨j, rfl⟩
+    exact ⟨some j, by simp, rfl⟩
+
+theorem range_gblk (i : Fin n) (c : Option Bool) :
+    Set.range (gblk R spans i c).v = aug (R i) '' allowed (spans i) c := by
+  ext w
+  constructor
+  · rintro ⟨⟨o, ho⟩, rfl⟩; exact ⟨o, ho, rfl⟩
+  · rintro ⟨o, ho, rfl⟩; exact ⟨⟨o, ho⟩, rfl⟩
+
+theorem span_blk_eq (h : Hyp R F spans) (i : Fin n) (c : Option Bool) :
+    Submodule.span K (Set.range (blk R F i c).v) = Submodule.span K (Set.range (gblk R spans i c).v) := by
+  rw [range_gblk]
+  have hsome : aug (R i) '' {o : Option (JR i) | o.isSome} = Set.range (R i) := image_isSome (aug (R i))
+  cases c with
+  | none =>
+    simp only [blk, allowed, Set.image_singleton]
+    congr 1
+    ext w
+    constructor
+    · rintro ⟨_, rfl⟩; rfl
+    · intro hw; exact ⟨(), hw.symm⟩
+  | some b =>
+    cases b with
+    | true => simp only [blk, allowed]; rw [hsome]
+    | false =>
+      by_cases hs : spans i = true
+      · simp only [blk, allowed, hs, if_true, Set.image_univ]
+        exact h.hFs i hs
+      · have hs' : spans i = false := by simpa using hs
+        simp only [blk, allowed, hs', Bool.false_eq_true, if_false]
+        rw [h.hFn i hs', hsome]
+
+/-- (P1) the columns of a scoped term span exactly the component columns it covers -/
+theorem span_stFamily (h : Hyp R F spans) (code : Code n) :
+    Submodule.span K (Set.range (stFamily R F code)) =
+      Submodule.span K (compColumn R '' keys (JR := JR) spans code) := by
+  unfold stFamily
+  rw [span_prodFamily_congr n L _ _ (fun i => (blk R F i (code i)).v) (fun i => (gblk R spans i (code i)).v)
+    (fun i => span_blk_eq R F spans h i (code i))]
+  congr 1
+  ext w
+  constructor
+  · rintro ⟨κ, rfl⟩
+    exact ⟨fun i => (κ i).1, fun i => (κ i).2, rfl⟩
+  · rintro ⟨k, hk, rfl⟩
+    exact ⟨fun i => ⟨k i, hk i⟩, rfl⟩
+
+theorem one_ne_zero_of_hyp (h : Hyp R F spans) (i : Fin n) : (fun _ : L i => (1 : K)) ≠ 0 :=
+  (h.hR i).ne_zero none
+
+/-- (P2) the columns of one scoped term are linearly independent -/
+theorem linearIndependent_stFamily (h : Hyp R F spans) (code : Code n) :
+    LinearIndependent K (stFamily R F code) := by
+  apply linearIndependent_prodFamily
+  intro i
+  cases hc : code i with
+  | none =>
+    simp only [blk]
+    rw [linearIndependent_unique_iff]
+    exact one_ne_zero_of_hyp R F spans h i
+  | some b =>
+    cases b with
+    | true => exact (h.hR i).comp some (Option.some_injective _)
+    | false => exact h.hF i
+
+/-- (P4) the columns of any family of scoped terms span the component columns the terms cover -/
+theorem span_structure (h : Hyp R F spans) {η : Type} (codes : η → Code n) :
+    Submodule.span K (Set.range
+      (fun x : (Σ a : η, ((i : Fin n) → (blk R F i (codes a i)).J)) => stFamily R F (codes x.1) x.2)) =
+      Submodule.span K (compColumn R '' ⋃ a, keys (JR := JR) spans (codes a)) := by
+  rw [Set.image_iUnion, Submodule.span_iUnion]
+  simp only [← span_stFamily R F spans h]
+  rw [← Submodule.span_iUnion]
+  congr 1
+  ext w
+  constructor
+  · rintro ⟨⟨a, κ⟩, rfl⟩; exact Set.mem_iUnion.mpr ⟨a, κ, rfl⟩
+  · intro hw
+    obtain ⟨a, κ, rfl⟩ := Set.mem_iUnion.mp hw
+    exact ⟨⟨a, κ⟩, rfl⟩
+
+/-- (P3) scoped terms that cover pairwise disjoint sets of component/column choices have jointly
+linearly independent columns -/
+theorem linearIndependent_structure (h : Hyp R F spans) {η : Type} (codes : η → Code n)
+    (hdisj : ∀ a b, a ≠ b → Disjoint (keys (JR := JR) spans (codes a)) (keys (JR := JR) spans (codes b))) :
+    LinearIndependent K
+      (fun x : (Σ a : η, ((i : Fin n) → (blk R F i (codes a i)).J)) => stFamily R F (codes x.1) x.2) := by
+  have hT := linearIndependent_compColumn R h.hR
+  apply linearIndependent_iUnion_finite (fun a => linearIndependent_stFamily R F spans h (codes a))
+  intro a t _ hat
+  have e : (⨆ b ∈ t, Submodule.span K (Set.range (stFamily R F (codes b)))) =
+      Submodule.span K (compColumn R '' ⋃ b ∈ t, keys (JR := JR) spans (codes b)) := by
+    simp only [span_stFamily R F spans h, Set.image_iUnion, Submodule.span_iUnion]
+  rw [e, span_stFamily R F spans h]
+  apply hT.disjoint_span_image
+  rw [Set.disjoint_iUnion₂_right]
+  intro b hb
+  exact hdisj a b (fun e' => hat (e' ▸ hb))
+
+/-! ### structural components as sets of factors -/
+
+/-- a factor that is present in every component of the term: reduced-coded, or not intercept-spanning -/
+def isMand (code : Code n) (i : Fin n) : Prop :=
+  code i = some true ∨ (code i = some false ∧ spans i = false)
+
+/-- the structural components of an abstract scoped term: every set of factors that contains the
+mandatory ones and only factors of the term -/
+def compsF (code : Code n) : Set (Finset (Fin n)) :=
+  {S | ∀ i, (i ∈ S → code i ≠ none) ∧ (isMand spans code i → i ∈ S)}
+
+theorem mem_keys_iff (code : Code n) (k : (i : Fin n) → Option (JR i)) :
+    k ∈ keys (JR := JR) spans code ↔ component k ∈ compsF spans code := by
+  simp only [keys, compsF, Set.mem_ofPred_eq, component, Finset.mem_filter, Finset.mem_univ, true_and, isMand]
+  constructor
+  · intro hk i
+    have := hk i
+    cases hc : code i with
+    | none =>
+      simp only [hc, allowed, Set.mem_singleton_iff] at this
+      simp [this]
+    | some b =>
+      cases b with
+      | true =>
+        simp only [hc, allowed, Set.mem_ofPred_eq] at this
+        simp [this]
+      | false =>
+        by_cases hs : spans i = true
+        · simp [hs]
+        · have hs' : spans i = false := by simpa using hs
+          simp only [hc, allowed, hs', Bool.false_eq_true, if_false, Set.mem_ofPred_eq] at this
+          simp [this]
+  · intro hS i
+    obtain ⟨h1, h2⟩ := hS i
+    cases hc : code i with
+    | none =>
+      simp only [allowed, Set.mem_singleton_iff]
+      cases hk : k i with
+      | none => rfl
+      | some j => exact absurd hc (h1 (by simp [hk]))
+    | some b =>
+      cases b with
+      | true => simp only [allowed, Set.mem_ofPred_eq]; exact h2 (.inl hc)
+      | false =>
+        by_cases hs : spans i = true
+        · simp [allowed, hs]
+        · have hs' : spans i = false := by simpa using hs
+          simp only [allowed, hs', Bool.false_eq_true, if_false, Set.mem_ofPred_eq]
+          exact h2 (.inr ⟨hc, hs'⟩)
+
+theorem keys_eq_preimage (code : Code n) :
+    keys (JR := JR) spans code = component ⁻¹' compsF spans code := by
+  ext k; exact mem_keys_iff spans code k
+
+/-- the reduced-coded term whose only component is `S` -/
+def redCode (S : Finset (Fin n)) : Code n := fun i => if i ∈ S then some true else none
+
+theorem compsF_redCode (S : Finset (Fin n)) : compsF spans (redCode S) = {S} := by
+  ext T
+  simp only [compsF, redCode, isMand, Set.mem_ofPred_eq, Set.mem_singleton_iff]
+  constructor
+  · intro h
+    ext i
+    constructor
+    · intro hi
+      have := (h i).1 hi
+      by_contra hn
+      simp [hn] at this
+    · intro hi; exact (h i).2 (.inl (by simp [hi]))
+  · rintro rfl i
+    constructor
+    · intro hi; simp [hi]
+    · rintro (h | ⟨h, _⟩)
+      · by_contra hn; simp [hn] at h
+      · by_contra hn; simp [hn] at h
+
+/-- (2) On a fully crossed design, the columns of a scoped term with full-coded factors (the row-wise
+Kronecker product of its factor blocks) span exactly the sum, over its structural components `S`
+(= presence choices for the full-coded intercept-spanning factors), of the spaces spanned by the
+products of the corresponding REDUCED blocks. -/
+theorem span_stFamily_eq_iSup_components (h : Hyp R F spans) (code : Code n) :
+    Submodule.span K (Set.range (stFamily R F code)) =
+      ⨆ S ∈ compsF spans code, Submodule.span K (Set.range (stFamily R F (redCode S))) := by
+  simp only [span_stFamily R F spans h]
+  rw [← Submodule.span_iUnion₂, ← Set.image_iUnion₂]
+  congr 2
+  ext k
+  simp only [Set.mem_iUnion, mem_keys_iff, compsF_redCode, Set.mem_singleton_iff, exists_prop]
+  constructor
+  · intro hk; exact ⟨component k, hk, rfl⟩
+  · rintro ⟨S, hS, rfl⟩; exact hS
+
+/-- (3, abstract form) Let the scoped terms `codes a` have pairwise disjoint sets of structural
+components (structural full rank), and let `codesFull b` be scoped terms with the same union of
+components (unchanged span). Then on the fully crossed design the columns of the `codes` are jointly
+linearly independent and span the same space as the columns of the `codesFull`. -/
+theorem reduced_structure_full_rank_same_span (h : Hyp R F spans) {η η' : Type}
+    (codes : η → Code n) (codesFull : η' → Code n)
+    (hdisj : ∀ a b, a ≠ b → Disjoint (compsF spans (codes a)) (compsF spans (codes b)))
+    (hsame : (⋃ a, compsF spans (codes a)) = ⋃ b, compsF spans (codesFull b)) :
+    LinearIndependent K
+      (fun x : (Σ a : η, ((i : Fin n) → (blk R F i (codes a i)).J)) => stFamily R F (codes x.1) x.2) ∧
+    Submodule.span K (Set.range
+      (fun x : (Σ a : η, ((i : Fin n) → (blk R F i (codes a i)).J)) => stFamily R F (codes x.1) x.2)) =
+    Submodule.span K (Set.range
+      (fun x : (Σ b : η', ((i : Fin n) → (blk R F i (codesFull b i)).J)) => stFamily R F (codesFull x.1) x.2)) := by
+  constructor
+  · apply linearIndependent_structure R F spans h
+    intro a b hab
+    rw [keys_eq_preimage, keys_eq_preimage]
+    exact (hdisj a b hab).preimage _
+  · rw [span_structure R F spans h, span_structure R F spans h]
+    simp only [keys_eq_preimage, ← Set.preimage_iUnion, hsame]
+
+end design
 
 end FormulaicVerif.Proofs.TensorRank
